@@ -555,7 +555,7 @@ class Ops(object):
             raise PyRaise('AttributeError', ExcInst('AttributeError'))
         if isinstance(base, SymMapView):
             return Builtin('map.' + name, lambda it2, a, k, _b=base, _n=name: _b.method(it2, _n, a, k))
-        if isinstance(base, (str, list, tuple, dict, Sym, datetime.datetime, TDelta, ExcInst, Err)) or base is None \
+        if isinstance(base, (str, list, tuple, dict, Sym, datetime.datetime, datetime.timedelta, TDelta, ExcInst, Err)) or base is None \
                 or isinstance(base, (int, float)):
             return self.world.builtins.value_attr(it, base, name)
         if isinstance(base, TypeRef):
